@@ -73,6 +73,34 @@ def has_long_edge_candidate(el):
     return any((a, b) in es and (b, c) in es and (a, c) in es for a in range(6) for b in range(6) for c in range(6) if len({a, b, c}) == 3)
 
 
+def big_shapes():
+    def ladder(k):
+        e, cur, nxt = [], 0, 1
+        for _ in range(k):
+            a, b, t = nxt, nxt + 1, nxt + 2
+            e += [(cur, a), (cur, b), (a, t), (b, t)]
+            cur, nxt = t, t + 1
+        return e
+    path = [(i, i + 1) for i in range(50)]
+    star_out = [(0, i) for i in range(1, 40)]
+    star_in = [(0, 1)] + [(i, 1) for i in range(2, 40)]
+    cyc = [(i, i + 1) for i in range(29)] + [(29, 0)]
+    bip = []
+    # K(5,5) in canonical numbering: left 0, then rights 1..5, then lefts 6..9
+    rights = [1, 2, 3, 4, 5]
+    lefts = [0, 6, 7, 8, 9]
+    for l in lefts:
+        for r in rights:
+            bip.append((l, r))
+    tree = [(i, 2 * i + 1) for i in range(31)] + [(i, 2 * i + 2) for i in range(31)]
+    tree.sort(key=lambda e: e[1])
+    two = []
+    for i in range(20):
+        two += [(i, i + 1), (i + 1, i)]
+    return {"diamond-ladder-24": ladder(24), "path-51": path, "out-star-40": star_out, "in-star-40": star_in, "cycle-30": cyc, "K5,5": bip,
+            "binary-tree-63": tree, "two-cycle-chain-21": two}
+
+
 def C01(tier):
     q = tier == "quick"
     N, M = nm(q, (3, 3), (4, 4))
@@ -85,6 +113,10 @@ def C01(tier):
                      consts={"P2": 0, "P4": 4, "SZ": 2}, bounds="same shapes x {no routing, straight, ortho} x {greedy,dfs}, SinkColoring"),
            layout_ob("layout-returns-greedy-random", "Harness_E_C01", sh, {"P2": [0, 1]},
                      consts={"P1": 2, "P4": 4, "P5": 2, "SZ": 0}, bounds="same shapes x greedy with RNG picks chosen by the solver (rand.Intn = arbitrary value in range)"),
+           layout_ob("layout-returns-large", "Harness_E_C01", list(big_shapes().values()), {"P1": [0, 1], "P2": [0, 1]},
+                     consts={"P4": 4, "P5": 2, "SZ": 0, "NSFIX": 10, "LSFIX": 20}, loop=8192, depth=300, enctimeout=120, hang_probe=True, hang_timeout=30, validate_cubes=2,
+                     bounds="time/memory budget probe on 8 structured graphs with 21..73 nodes (%s) x {greedy,dfs} x {NS,LP}, default positioner and router, no sizes; "
+                            "the engine's loop (8192) / recursion (300) / time (120 s) budgets are the 'generous budget'; an exhausted budget is confirmed natively under a 30 s watchdog" % ", ".join(big_shapes())),
            layout_ob("layout-returns-bk", "Harness_E_C01", shapes(3, 3) if q else shapes(4, 3), {"BK": [-1, 0, 1, 2, 3], "P2": [0, 1]},
                      consts={"P1": 0, "P4": 2, "P5": 2, "SZ": 5, "NSFIX": 10, "LSFIX": 20}, loop=96,
                      bounds="canonical edge lists x Brandes-Koepf (balanced and forced layouts 0..3) x {NS,LP}; concrete heterogeneous sizes"),
@@ -197,11 +229,14 @@ def C08(tier):
     q = tier == "quick"
     sh = [[(0, 1)], [(0, 1), (0, 2)], [(0, 1), (1, 2), (0, 2)], [(0, 1), (1, 0)], [(0, 0), (0, 1)], [(0, 1), (1, 2), (2, 0)]] if q else shapes(3, 3) + [
         [(0, 1), (1, 2), (2, 3), (3, 0)], [(0, 1), (1, 2), (2, 0), (2, 3)], [(0, 1), (1, 2), (2, 3), (3, 1)]]
-    obs = [layout_ob("layout-rename", "Harness_E_C08", sh, {"P4": [4, 3]},
-                     consts={"P1": 0, "P2": 0, "P5": 2, "SZ": 5, "INTSZ": 1, "NSFIX": 10, "LSFIX": 20},
-                     bounds="%s x {SinkColoring, NetworkSimplex positioner}; symbolic: an injective renaming chosen by the solver from the alphabet "
-                            "{a,V1,V2,V3,NE0..NE3,'',non-ASCII,n0,n1}; concrete heterogeneous sizes" % nm(q, "6 shapes (edge, fork, long edge, 2-cycle, self-loop, 3-cycle)", "all canonical edge lists N<=3 M<=3"),
-                     enctimeout=240, qtimeout=120, loop=192)]
+    small = [[(0, 1)], [(0, 1), (0, 2)], [(0, 1), (1, 0)], [(0, 0), (0, 1)]] if q else shapes(3, 2)
+    A = ("symbolic: an injective renaming chosen by the solver from the alphabet {a,V1,V2,V3,NE0..NE3,'',non-ASCII,n0,n1}; concrete heterogeneous sizes; "
+         "both runs must agree in their results and in whether they panic")
+    obs = [layout_ob("layout-rename", "Harness_E_C08", sh, {"P4": [4]}, consts={"P1": 0, "P2": 0, "P5": 2, "SZ": 5, "INTSZ": 1, "NSFIX": 10, "LSFIX": 20},
+                     bounds="%s x SinkColoring (default pipeline); %s" % (nm(q, "6 shapes (edge, fork, long edge, 2-cycle, self-loop, 3-cycle)", "all canonical edge lists N<=3 M<=3 + three 4-node cyclic shapes"), A),
+                     enctimeout=240, qtimeout=120),
+           layout_ob("layout-rename-nspos", "Harness_E_C08", small, {"P4": [3]}, consts={"P1": 0, "P2": 0, "P5": 2, "SZ": 5, "INTSZ": 1, "NSFIX": 10, "LSFIX": 20},
+                     bounds="%s x NetworkSimplex positioner; %s" % (nm(q, "4 shapes with <= 2 edges", "all canonical edge lists N<=3 M<=2"), A), enctimeout=240, qtimeout=120, loop=192)]
     return dict(obligations=obs)
 
 
